@@ -210,7 +210,9 @@ func (b *BinaryExpression) SQL() string {
 	sb.WriteString(operandSQL(spine[last].Left, shapes[last].leftCtx))
 	for i := last; i >= 0; i-- {
 		sb.WriteString(shapes[i].middle)
-		if shapes[i].hasRight {
+		if shapes[i].rightText != "" {
+			sb.WriteString(shapes[i].rightText)
+		} else if shapes[i].hasRight {
 			sb.WriteString(operandSQL(spine[i].Right, shapes[i].rightCtx))
 		}
 		sb.WriteString(shapes[i].suffix)
@@ -226,6 +228,7 @@ func (b *BinaryExpression) SQL() string {
 type binaryShape struct {
 	prefix, middle, suffix string
 	hasRight               bool
+	rightText              string // replaces the rendering of the right operand when not empty
 	leftCtx, rightCtx      int
 }
 
@@ -254,6 +257,22 @@ func (b *BinaryExpression) shape() binaryShape {
 		sh.prefix = "NOT "
 		sh.leftCtx = precNot
 		sh.hasRight = false
+		return sh
+	}
+
+	// MATCH (cols) AGAINST (expr [search modifier]): the parser keeps the search expression and the
+	// modifier words as the arguments of a pseudo call named AGAINST
+	if against, ok := b.Right.(*FunctionCall); ok && against != nil && upperOp == "AGAINST" &&
+		strings.EqualFold(against.Name, "AGAINST") && len(against.Arguments) > 0 {
+		sh.leftCtx = precPrimary
+		sh.middle = " AGAINST ("
+		sh.rightText = operandSQL(against.Arguments[0], precPrimary)
+		if len(against.Arguments) > 1 {
+			if mode, ok := against.Arguments[1].(*LiteralValue); ok && mode != nil {
+				sh.rightText += " " + fmt.Sprintf("%v", mode.Value)
+			}
+		}
+		sh.suffix = ")"
 		return sh
 	}
 
